@@ -2,6 +2,7 @@ import Sympler.FuncCompile
 import Sympler.SmartList
 import Sympler.Verlet
 import Sympler.KernelsDrv
+import Sympler.HitTimeDrv
 import Sympler.DataFormatDriver
 import Sympler.Bonds
 import Sympler.Validate
@@ -29,6 +30,7 @@ def dispatch (name : String) (lines : List String) : Option (List String) :=
   | "smartlist" => some (Sympler.SmartList.driver lines)
   | "verlet" => some (Sympler.Verlet.driver lines)
   | "kernels" => some (Sympler.KernelsDrv.driver lines)
+  | "hittime" => some (Sympler.HitTimeDrv.driver lines)
   | "dataformat" => some (Sympler.DataFormat.driver lines)
   | "bonds" => some (Sympler.Bonds.driver lines)
   | "validate" => some (Sympler.Validate.driver lines)
